@@ -21,7 +21,7 @@ var interesting64 = []uint64{0, 1, 0xffffffff, 0x100000000, 0x7fffffffffffffff, 
 
 // MutationKinds names the mutation operators (for the distribution counters).
 var MutationKinds = []string{"bitflip", "setbyte", "truncate", "extend", "delete", "insert", "dup",
-	"len16", "len32", "len64", "lenrel", "splice", "cbor-count", "cbor-indef", "cbor-tag", "cbor-nest", "cbor-dupkey", "cbor-huge", "cbor-swap-major"}
+	"len16", "len32", "len64", "lenrel", "splice", "cbor-count", "cbor-indef", "cbor-tag", "cbor-nest", "cbor-dupkey", "cbor-huge", "cbor-swap-major", "cbor-replace-item", "cbor-drop-pair"}
 
 // RandBytes returns n bytes.
 func RandBytes(r *hlib.Rng, n int) []byte {
@@ -119,14 +119,9 @@ func walkCBOR(b []byte) []cborItem {
 		return end
 	}
 	rec(0, -1, false, 0)
-	// Keep only completed items.
-	out := items[:0]
-	for _, it := range items {
-		if it.end > 0 {
-			out = append(out, it)
-		}
-	}
-	return out
+	// Items whose end stayed 0 are incomplete (truncated input); indices (parent links) refer
+	// to this unfiltered list, callers skip the incomplete ones.
+	return items
 }
 
 func cborHeader(major byte, arg uint64, width int) []byte {
@@ -287,10 +282,16 @@ func Mutate(r *hlib.Rng, seed, other []byte, cborAware bool) ([]byte, string) {
 		}
 		// CBOR-aware operators.
 		items := walkCBOR(b)
-		if len(items) == 0 {
+		var complete []int
+		for i, x := range items {
+			if x.end > 0 {
+				complete = append(complete, i)
+			}
+		}
+		if len(complete) == 0 {
 			continue
 		}
-		it := items[r.Intn(len(items))]
+		it := items[complete[r.Intn(len(complete))]]
 		switch kind {
 		case "cbor-count":
 			// Change the declared count/length of an item by a little or to something huge.
@@ -337,7 +338,7 @@ func Mutate(r *hlib.Rng, seed, other []byte, cborAware bool) ([]byte, string) {
 			// Duplicate one key/value pair of a map and fix up the count.
 			var maps []cborItem
 			for _, m := range items {
-				if m.major == 5 && m.arg > 0 && m.hdr == 1 && m.arg < 23 {
+				if m.end > 0 && m.major == 5 && m.arg > 0 && m.hdr == 1 && m.arg < 23 {
 					maps = append(maps, m)
 				}
 			}
@@ -353,7 +354,7 @@ func Mutate(r *hlib.Rng, seed, other []byte, cborAware bool) ([]byte, string) {
 			}
 			var keys []int
 			for i, x := range items {
-				if x.parent == mi && x.isKey {
+				if x.end > 0 && x.parent == mi && x.isKey {
 					keys = append(keys, i)
 				}
 			}
@@ -383,6 +384,32 @@ func Mutate(r *hlib.Rng, seed, other []byte, cborAware bool) ([]byte, string) {
 			if r.Chance(1, 2) {
 				out = append(out, RandBytes(r, r.Intn(64))...)
 			}
+			return out, kind
+		case "cbor-replace-item":
+			// Replace a complete item by null / zero / an empty container / an empty string
+			// (nil pointers and empty collections where the decoder's user expects content).
+			with := [][]byte{{0xf6}, {0xf6}, {0xf6}, {0x00}, {0x80}, {0xa0}, {0x40}, {0x60}, {0xf7}, {0xf4}, {0x20}}[r.Intn(11)]
+			return replace(b, it.off, it.end, with), kind
+		case "cbor-drop-pair":
+			// Remove one key/value pair of a small map and fix up the count (missing fields).
+			if !it.isKey || it.parent < 0 {
+				continue
+			}
+			m := items[it.parent]
+			if m.major != 5 || m.hdr != 1 || m.arg == 0 || m.arg > 23 {
+				continue
+			}
+			valEnd := -1
+			for _, x := range items {
+				if x.parent == it.parent && !x.isKey && x.off == it.end {
+					valEnd = x.end
+				}
+			}
+			if valEnd < 0 {
+				continue
+			}
+			out := replace(b, it.off, valEnd, nil)
+			out[m.off] = 5<<5 | byte(m.arg-1)
 			return out, kind
 		case "cbor-swap-major":
 			nm := byte(r.Intn(8))
